@@ -25,7 +25,7 @@ run_one() {
 export -f run_one
 # one snapshot of /repo for the whole run (later edits of /repo do not mix into it)
 rm -rf /tmp/seedbase; mkdir -p /tmp/seedbase; rsync -a --exclude .git /repo/ /tmp/seedbase/
-echo $seeds | tr ' ' '\n' | xargs -P 2 -I{} bash -c 'run_one {}' > /tmp/seedall.tsv
+echo $seeds | tr ' ' '\n' | xargs -P 3 -I{} bash -c 'run_one {}' > /tmp/seedall.tsv
 rm -rf /tmp/seedbase
 if [ $# -eq 0 ]; then cut -f1-4 /tmp/seedall.tsv | sort > /verif/seeded/RESULTS.tsv; else
   # partial run: replace only the lines of the seeds that were run
